@@ -387,6 +387,8 @@ def r3_id_plumbing(ctx):
                                'WireClientState.session_id derives from %s' % sorted(c for c in calls if 'SessionId' in c))
         ctx.floor('C11.R3', 'WireClientState constructions in finalize (and its helpers)', found, 1)
         # sync precedes cookie creation: in finalize itself, sync dominates every cookie constructor and every call of a helper that builds one
+        from ..inline import inlined
+        fin = inlined(ctx.fb, fin, keep={M + 'Session::sync'})     # cookie building may sit any number of private helpers deep
         syncs = [bb for bb, t in fin.calls() if callee(t) == M + 'Session::sync']
         news = [(bb, callee(t)) for bb, t in fin.calls() if COOKIE_NEW(callee(t)) or strip_generics(callee(t) or '') in builders - {M + 'Session::finalize'}]
         if ctx.need('C11.R3', 'call to Session::sync in finalize', syncs) and ctx.need('C11.R3', 'cookie constructors (or helpers that build cookies) in finalize', news):
